@@ -15,7 +15,8 @@ RULE = (
     "case = workflow (parallel branches, multi-task stages, polling / transient-retry tasks, synthetic before/after "
     "stages, suspended stage, jump loops, early-firing joins) x cancel request injected before EVERY delivery step of "
     "the reference run x {FIFO, random order, random order with withheld acks} (the CancelWorkflow message itself is "
-    "subject to the order, i.e. can be overtaken). tau = audit sequence number of the durable is_canceled 0->1 row. "
+    "subject to the order, i.e. can be overtaken); plus two workflows sharing a concurrency limit of 1, the second BUFFERED, "
+    "cancelled at every step while it waits or runs. tau = audit sequence number of the durable is_canceled 0->1 row. "
     "Oracles: no ledger entry begins after tau; every top-level stage unfinished at tau ends CANCELED; nothing RUNNING; "
     "workflow final and CANCELED unless every top-level stage had finished at tau or a stage is TERMINAL. Non-trivial = "
     "cancel became durable while >=1 stage was unfinished; distinct = (spec, multiset of stage statuses at tau)."
@@ -41,7 +42,7 @@ def _specs(tier: str, seed: int) -> list[dict]:
 
 
 def gen_cases(tier: str, seed: int) -> list[dict]:
-    cases = []
+    cases = [{"kind": "buffered", "order": o, "seed": seed, "keep": k} for o in ("fifo", "random", "random_noack") for k in (False, True)]
     for i, _ in enumerate(_specs(tier, seed)):
         for order in ("fifo", "random", "random_noack"):
             cases.append({"spec_i": i, "order": order, "seed": seed})
@@ -112,7 +113,62 @@ def cancel_oracle(spec: dict, run) -> tuple[list[dict], Counter, set]:
     return out, obs, keys
 
 
+def _buffered(case: dict) -> dict:
+    """Cancel of a workflow that is BUFFERED behind a concurrency limit: the cancel must
+    stick - when the slot frees up the workflow must not start after all."""
+    cfg = {"pipeline_config_id": "P", "max_concurrent_executions": 1, "keep_waiting_pipelines": case["keep"]}
+    first = dict(specs.diamond(), wf=cfg)
+    second = {"name": "buffered2", "confluent": True, "wf": cfg, "stages": [specs.st("x", [], [dict(specs.OK), dict(specs.OK)]), specs.st("y", ["x"])]}
+
+    def pre(w):
+        first_id = w.wf_id
+        w.submit(second)
+        w.first_wf = first_id
+
+    ref = delivery_run(first, pre_hook=pre)
+    obs: Counter = Counter()
+    keys: set = set()
+    violations = []
+    rng = random.Random(case["seed"] * 19)
+    order = "fifo" if case["order"] == "fifo" else "random"
+    noack = 0.25 if case["order"] == "random_noack" else 0.0
+    for step in range(2, ref.steps + 1):
+        run = delivery_run(first, pre_hook=pre, seed=rng.randrange(1 << 30), order=order, noack_p=noack, injections=[{"at": step, "do": "cancel"}], max_steps=ref.steps * 5 + 100)
+        obs["evaluations"] += 1
+        wf2 = run.wf_id
+        run.ledger = [r for r in run.ledger if r["wf"] == wf2]
+        wf_status_at_cancel = None
+        tau = next((a["seq"] for a in run.audit if a["kind"] == "cancel" and a["a"] == wf2 and str(a["d"]) == "1"), None)
+        for a in run.audit:
+            if a["kind"] == "status" and a["op"] in ("wf", "wf_ins") and a["a"] == wf2 and (tau is None or a["seq"] < tau):
+                wf_status_at_cancel = a["d"]
+        v, o, k = cancel_oracle(second, run)
+        obs.update(o)
+        if wf_status_at_cancel == "BUFFERED":
+            obs["cancels_of_buffered_workflow"] += 1
+            keys.add(f"buffered:{case['order']}:{case['keep']}:{step}")
+        if tau is None and run.state["wf"] not in oracles.COMPLETE:
+            v.append(viol("C17/cancel-request-had-no-effect", f"the cancel was consumed while the workflow was {wf_status_at_cancel}; is_canceled never set, workflow ends {run.state['wf']}"))
+        elif tau is None and run.ledger and wf_status_at_cancel in ("BUFFERED", "NOT_STARTED", None):
+            # the cancel was processed (no flag row) before the workflow ever ran, yet it ran
+            marks = [a for a in run.audit if a["kind"] == "mark" and a["b"] == "CancelWorkflow"]
+            if marks and any(r["seq"] > marks[0]["seq"] for r in run.ledger):
+                v.append(viol("C17/cancel-request-had-no-effect", f"CancelWorkflow was consumed at seq {marks[0]['seq']} without setting is_canceled; {len(run.ledger)} task(s) of the workflow ran afterwards, workflow ends {run.state['wf']}"))
+        for x in v:
+            x.update(scenario="buffered", cancel_at_step=step, order=case["order"])
+        violations += v
+    seen = set()
+    uniq = []
+    for x in violations:
+        if x["sig"] not in seen:
+            seen.add(x["sig"])
+            uniq.append(x)
+    return {"violations": uniq, "obs": dict(obs), "keys": sorted(keys)}
+
+
 def run_case(case: dict) -> dict:
+    if case.get("kind") == "buffered":
+        return _buffered(case)
     spec = _specs("thorough" if case["spec_i"] >= 15 else "quick", case["seed"])[case["spec_i"]]
     ref = delivery_run(spec)
     obs: Counter = Counter()
